@@ -17,7 +17,7 @@ func init() {
 		Explanation: "the glue tables of main.go: (R19.1) file suffix -> parser and result printer; (R19.2) solver status -> answer line in each result printer, `o`/`v` lines only under status Sat; (R19.3) every `err != nil` edge reaches os.Exit with a non-zero constant (directly or by returning the error to a caller that does) without printing an answer line; " +
 			"(R19.4) nothing but scalars, strings and values with a String/Error method is printed on standard output; (R19.5) every result channel handed to a `go` producer is ranged over until it is closed on every path to a return.",
 		NotDecided: "truthfulness of what is printed (models, costs, counts); flag handling; the order of output lines.",
-		Rules:      []ruleFn{ruleR19_1, ruleR19_2, ruleR19_3, ruleR19_4, ruleR19_5, ruleR19_6, ruleR19_7},
+		Rules:      []ruleFn{ruleR19_1, ruleR19_2, ruleR19_3, ruleR19_4, ruleR19_5, ruleR19_6, ruleR19_7, ruleR19_8},
 	})
 }
 
